@@ -46,6 +46,8 @@ mod runner;
 mod scenario;
 #[path = "/verif/harness/src/sim.rs"]
 mod sim;
+#[path = "/verif/harness/src/wire.rs"]
+mod wire;
 #[path = "/verif/harness/src/fuzzdec.rs"]
 mod fuzzdec;
 
